@@ -7,49 +7,13 @@ re-checked against what `/repo/odl/util/numerics.py` says on every run.
 All sizes, offsets and array contents are universally quantified; scalars range over an
 arbitrary commutative ring (ℤ, ℚ, ℝ, ℂ, …).
 -/
-import OdlModel.Lemmas.ResizeND
-import Mathlib.Tactic.FieldSimp
+import OdlModel.Lemmas.ResizeSpec
+import OdlModel.Lemmas.ResizeOp
 
 set_option linter.unusedVariables false
 set_option linter.unusedTactic false
 set_option linter.unreachableTactic false
 set_option linter.unnecessarySeqFocus false
-
-namespace OdlModel.C16
-open OdlModel.Resize
-
-/-- The documented requirement on a padded axis of original length `n`
-(docstring of `resize_array`). -/
-def PadOK (mode : Mode) (n padL padR : Nat) : Prop :=
-  match mode with
-  | .constant => True
-  | .periodic => padL ≤ n ∧ padR ≤ n
-  | .symmetric => padL < n ∧ padR < n
-  | .order0 => 1 ≤ n
-  | .order1 => 2 ≤ n
-
-/-- `(n, m, off)` is an admissible resize of one axis from length `n` to length `m`:
-the block fits, and if the axis grows the padding lengths respect the mode's limit. -/
-def Admissible (mode : Mode) (n m off : Nat) : Prop :=
-  off + min n m ≤ max n m ∧ (n < m → PadOK mode n off (m - n - off))
-
-/-- NumPy's padding (`constant`, `wrap`, `reflect`, `edge`) and, for `order1`, linear
-extrapolation — the reference the property names. -/
-def npPad {K : Type} [CommRing K] (mode : Mode) (n off : Nat) (c : K) (x : Nat → K) : Nat → K :=
-  match mode with
-  | .constant => npConstant n off c x
-  | .periodic => npWrap n off x
-  | .symmetric => npReflect n off x
-  | .order0 => npEdge n off x
-  | .order1 => linExtrap n off x
-
-/-- Per-axis admissibility of an n-d resize. -/
-def AdmissibleND (mode : Mode) : List Nat → List Nat → List Nat → Prop
-  | n :: sIn, m :: sOut, off :: offs => Admissible mode n m off ∧ AdmissibleND mode sIn sOut offs
-  | [], [], [] => True
-  | _, _, _ => False
-
-end OdlModel.C16
 
 open OdlModel.C16 OdlModel.Resize Finset
 
@@ -73,38 +37,6 @@ theorem C16.guards_are_documented_limits (mode : Mode) (n m off : Nat) (c : K) :
 theorem C16.adjoint_needs_zero_padconst (n m off : Nat) (c : K) (hc : c ≠ 0) (y : Nat → K) :
     resize1d .constant .adjoint m n off c y = .error .padConstAdjoint := by
   simp [resize1d, check, hc]
-
-omit [DecidableEq K] in
-private theorem admissible_fits {mode : Mode} {n m off : Nat} (h : Admissible mode n m off)
-    (hnm : n < m) : off + n ≤ m := by
-  have := h.1; omega
-
-/-- A successful call returns `resizeCore`. -/
-private theorem ok_iff (mode : Mode) (dir : Dir) (n m off : Nat) (c : K) (x r : Nat → K) :
-    resize1d mode dir n m off c x = .ok r ↔
-      check mode dir n m off c = none ∧ r = resizeCore mode dir n m off c x := by
-  unfold resize1d
-  cases h : check mode dir n m off c <;> simp [eq_comm]
-
-/-- One growing axis, forward direction, closed form for every mode:
-`constant/periodic/symmetric/order0` read the input at NumPy's `constant/wrap/reflect/edge`
-index, `order1` extrapolates linearly. -/
-private theorem core_fwd_grow (mode : Mode) (n m off : Nat) (c : K) (x : Nat → K) (hnm : n < m)
-    (h : Admissible mode n m off) (i : Nat) (hi : i < m) :
-    resizeCore mode .forward n m off c x i = npPad mode n off c x i := by
-  have hoff := admissible_fits h hnm
-  have hp := h.2 hnm
-  cases mode <;> simp only [PadOK] at hp <;> simp only [npPad]
-  · exact core_constant_fwd n m off c x hnm hoff i
-  · rw [core_symmetric_fwd n m off c x hnm hoff hp.1 hp.2 i hi]
-    simp only [npReflect]
-    rw [reflect_eq_src n off i (by omega) hp.1 (by omega)]
-  · rw [core_periodic_fwd n m off c x hnm hoff hp.1 hp.2 i hi]
-    simp only [npWrap]
-    rw [wrap_eq_src n off i (by omega) hp.1 (by omega)]
-  · rw [core_order0_fwd n m off c x hnm hoff hp i hi]
-    simp only [npEdge, srcEdge, ge_iff_le]
-  · exact core_order1_fwd n m off c x hnm hoff hp i hi
 
 /-- **Padding equals NumPy's.**  For every pad mode, every original length `n`, new length
 `m > n`, offset and array content for which the call is admissible, `resize_array` succeeds
@@ -167,23 +99,6 @@ theorem C16.crop_extend_id (mode mode' : Mode) (n m off : Nat) (c c' : K) (x r :
   rw [core_fwd_crop mode' m n off c' r hnm hfit j hj]
   exact hint j hj
 
-/-- One axis: forward `n → m` and adjoint `m → n` are transposes, all modes and sizes. -/
-private theorem core_transpose (mode : Mode) (n m off : Nat) (h : Admissible mode n m off) :
-    TransposePair n m (resizeCore mode .forward n m off (0 : K))
-      (resizeCore mode .adjoint m n off (0 : K)) := by
-  intro x y
-  by_cases hnm : n < m
-  · have hoff := admissible_fits h hnm
-    have hp := h.2 hnm
-    cases mode <;> simp only [PadOK] at hp
-    · exact constant_transpose n m off x y hnm hoff
-    · exact symmetric_transpose n m off x y hnm hoff hp.1 hp.2
-    · exact periodic_transpose n m off x y hnm hoff hp.1 hp.2
-    · exact order0_transpose n m off x y hnm hoff hp
-    · exact order1_transpose n m off x y hnm hoff hp
-  · have := h.1
-    exact crop_transpose mode n m off x y (by omega) (by omega)
-
 /-- **Forward and adjoint are transposes of each other** (one axis).  For every linear mode
 (`pad_const = 0`), all lengths `n`, `m` (growing: padding vs. accumulation of the outer parts
 into the inner ones — sums for `order0`, zeroth and first moments for `order1`; shrinking:
@@ -197,44 +112,6 @@ theorem C16.adjoint_transpose (mode : Mode) (n m off : Nat) (x y : Nat → K)
   have hg := C16.guards_are_documented_limits (K := K) mode n m off 0
   exact ⟨_, _, (ok_iff ..).2 ⟨hg.1.2 h, rfl⟩, (ok_iff ..).2 ⟨hg.2.2 h, rfl⟩,
     core_transpose mode n m off h x y⟩
-
-omit [DecidableEq K] in
-private theorem admND_lengths {mode : Mode} : ∀ {sIn sOut offs : List Nat},
-    AdmissibleND mode sIn sOut offs → sIn.length = sOut.length ∧ sIn.length = offs.length
-  | [], [], [], _ => ⟨rfl, rfl⟩
-  | _ :: _, _ :: _, _ :: _, h => by
-    have := admND_lengths h.2
-    simp only [List.length_cons]; omega
-  | [], [], _ :: _, h => by simp [AdmissibleND] at h
-  | [], _ :: _, _, h => by simp [AdmissibleND] at h
-  | _ :: _, [], _, h => by simp [AdmissibleND] at h
-  | _ :: _, _ :: _, [], h => by simp [AdmissibleND] at h
-
-private theorem axes_transpose (mode : Mode) :
-    ∀ (sIn sOut offs pre : List Nat), AdmissibleND mode sIn sOut offs →
-      TransposePairND (pre ++ sIn) (pre ++ sOut)
-        (resizeAxes mode .forward (0 : K) pre.length sIn sOut offs)
-        (resizeAxesRev mode .adjoint (0 : K) pre.length sOut sIn offs)
-  | [], [], [], pre, _ => by
-    intro X Y
-    simp only [resizeAxes, resizeAxesRev]
-    congr 1; funext idx; ring
-  | n :: sIn, m :: sOut, off :: offs, pre, h => by
-    have ih := axes_transpose mode sIn sOut offs (pre ++ [m]) h.2
-    have h1 : TransposePairND (pre ++ n :: sIn) (pre ++ m :: sIn)
-        (alongAxis pre.length (resizeCore mode .forward n m off (0 : K)))
-        (alongAxis pre.length (resizeCore mode .adjoint m n off (0 : K))) := by
-      intro X Y
-      exact alongAxis_transpose n m _ _ (core_transpose mode n m off h.1) pre sIn X Y
-    simp only [List.append_assoc, List.cons_append, List.nil_append, List.length_append,
-      List.length_cons, List.length_nil, Nat.zero_add] at ih
-    have := TransposePairND.comp h1 ih
-    intro X Y
-    simpa only [resizeAxes, resizeAxesRev, Function.comp] using this X Y
-  | [], [], _ :: _, _, h => by simp [AdmissibleND] at h
-  | [], _ :: _, _, _, h => by simp [AdmissibleND] at h
-  | _ :: _, [], _, _, h => by simp [AdmissibleND] at h
-  | _ :: _, _ :: _, [], _, h => by simp [AdmissibleND] at h
 
 /-- **Forward and adjoint are transposes, any number of axes**, growing in some axes while
 shrinking in others: with the one-axis maps composed along the axes (forward: axis 0 first,
@@ -266,4 +143,214 @@ theorem C16.nd_accepts_iff (mode : Mode) (c : K) :
   | [], [], _ :: _, _, h2 => by simp at h2
   | _ :: _, _ :: _, [], _, h2 => by simp at h2
 
+/-- **Constant slope (`order1`).**  The result continues the two outermost samples of each
+side as an arithmetic progression: all second differences vanish on `[0, off + 1]` and on
+`[off + n - 2, m - 1]`, for all sizes, offsets and contents. -/
+theorem C16.order1_linear_extrapolation (n m off : Nat) (c : K) (x : Nat → K) (hnm : n < m)
+    (h : Admissible .order1 n m off) :
+    ∃ r, resize1d .order1 .forward n m off c x = .ok r ∧
+      (∀ i, i + 2 ≤ off + 1 → r i - 2 * r (i + 1) + r (i + 2) = 0) ∧
+      (∀ i, off + n - 2 ≤ i → i + 2 < m → r i - 2 * r (i + 1) + r (i + 2) = 0) := by
+  obtain ⟨r, hr, hv⟩ := C16.pad_eq_nppad .order1 n m off c x hnm h
+  have hoff := admissible_fits h hnm
+  have hn : 2 ≤ n := h.2 hnm
+  refine ⟨r, hr, ?_, ?_⟩
+  · intro i hi
+    rw [hv i (by omega), hv (i + 1) (by omega), hv (i + 2) (by omega)]
+    simp only [npPad]
+    rw [linExtrap_left n off i x hn (by omega), linExtrap_left n off (i + 1) x hn (by omega),
+      linExtrap_left n off (i + 2) x hn (by omega)]
+    push_cast; ring
+  · intro i hi hi2
+    rw [hv i (by omega), hv (i + 1) (by omega), hv (i + 2) (by omega)]
+    simp only [npPad]
+    rw [linExtrap_right n off i x hn (by omega), linExtrap_right n off (i + 1) x hn (by omega),
+      linExtrap_right n off (i + 2) x hn (by omega)]
+    push_cast; ring
+
 end
+
+section operator
+variable {F : Type} [Field F] [CharZero F]
+
+/-- **`ResizingOperator`: cell sides are unchanged.**  The range axis built by `_resize_discr`
+has the same `cell_sides` as the domain axis — for every interval, all sizes (≥ 2 grid points),
+every offset (given or `None`) and every combination of `nodes_on_bdry` in domain and range. -/
+theorem C16.range_cell_unchanged (a : Axis F) (nNew : Nat) (off : Option Int) (bl' br' : Bool)
+    (hn : 2 ≤ a.n) (hN : 2 ≤ nNew) :
+    (resizeAxis a nNew off bl' br').cell = a.cell := by
+  obtain ⟨lo, hi, n, bl, br⟩ := a
+  have hsum := numLR_sum n nNew off
+  simp only [resizeAxis]
+  generalize (numLR n nNew off) = pq at hsum ⊢
+  obtain ⟨p, q⟩ := pq
+  have hq : (q : F) = (nNew : F) - (n : F) - (p : F) := by
+    have : q = (nNew : Int) - n - p := by simp at hsum; omega
+    rw [this]; push_cast; ring
+  obtain ⟨h1, h2, h3⟩ := cast_ne_zero_facts (F := F) n hn
+  obtain ⟨g1, g2, g3⟩ := cast_ne_zero_facts (F := F) nNew hN
+  cases bl <;> cases br <;> cases bl' <;> cases br' <;>
+    simp only [Axis.cell, Axis.gridMin, Axis.gridMax, Bool.false_eq_true, ↓reduceIte,
+      Int.cast_natCast, Int.cast_zero, Int.cast_one, Int.cast_ofNat, sub_zero, hq]
+  all_goals first | rw [div_eq_iff g1] | rw [div_eq_iff g2] | rw [div_eq_iff g3]
+  all_goals first
+    | linear_combination (-1 : F) * (div_mul_cancel₀ (hi - lo) h1)
+    | linear_combination (-1 : F) * (div_mul_cancel₀ (hi - lo) h2)
+    | linear_combination (-1 : F) * (div_mul_cancel₀ (hi - lo) h3)
+
+
+/-- **Where the range grid starts (as coded).**  The first grid point of the range is the first
+grid point of the domain moved `num_l` cells to the left, `num_l` as computed by
+`_resize_discr`. -/
+theorem C16.range_grid_min (a : Axis F) (nNew : Nat) (off : Option Int) (bl' br' : Bool)
+    (hn : 2 ≤ a.n) (hN : 2 ≤ nNew) :
+    (resizeAxis a nNew off bl' br').gridMin =
+      a.gridMin - (((numLR a.n nNew off).1 : Int) : F) * a.cell := by
+  have hc := C16.range_cell_unchanged a nNew off bl' br' hn hN
+  have e : (resizeAxis a nNew off bl' br').gridMin =
+      if bl' then (resizeAxis a nNew off bl' br').lo
+      else (resizeAxis a nNew off bl' br').lo +
+        (resizeAxis a nNew off bl' br').cell / ((2 : Int) : F) := by
+    cases bl' <;> rfl
+  rw [e, hc]
+  cases bl' <;> simp only [resizeAxis, Bool.false_eq_true, ↓reduceIte] <;> ring
+
+
+/-- **Grid alignment of the copied block** (`_partial`: see `C16.range_grid_shrink_offset_fails`).
+Extension with `offset = o ≥ 0` (or `None`): grid point number `num_l = offset` of the range is
+the first grid point of the domain — the block `[offset, offset + n)` written by `resize_array`
+sits on the domain's own grid points.  Restriction with `offset = None`: the range starts at
+grid point `-num_l = offset` of the domain.
+FULL STATEMENT (fails in the code): the same for a restriction with an explicit `offset = o > 0`,
+i.e. `range.gridMin = domain.gridMin + o * cell`. -/
+theorem C16.range_grid_aligned_partial (a : Axis F) (nNew : Nat) (off : Option Int)
+    (bl' br' : Bool) (hn : 2 ≤ a.n) (hN : 2 ≤ nNew)
+    (hoff : (a.n ≤ nNew ∧ ∀ o, off = some o → 0 ≤ o) ∨ (nNew < a.n ∧ off = none)) :
+    let numL := (numLR a.n nNew off).1
+    (a.n ≤ nNew → 0 ≤ numL ∧
+      (resizeAxis a nNew off bl' br').gridMin + ((numL : Int) : F) * a.cell = a.gridMin) ∧
+    (nNew < a.n → numL ≤ 0 ∧
+      (resizeAxis a nNew off bl' br').gridMin = a.gridMin + (((-numL : Int)) : F) * a.cell) := by
+  intro numL
+  have hg := C16.range_grid_min a nNew off bl' br' hn hN
+  refine ⟨fun h => ⟨?_, ?_⟩, fun h => ⟨?_, ?_⟩⟩
+  · rcases hoff with ⟨_, ho⟩ | ⟨h', _⟩
+    · simp only [numL, numLR]
+      split_ifs
+      · simp
+      · cases off with
+        | none => simp only; omega
+        | some o => exact ho o rfl
+    · omega
+  · rw [hg]; ring
+  · rcases hoff with ⟨h', _⟩ | ⟨_, ho⟩
+    · omega
+    · subst ho
+      simp only [numL, numLR]
+      split_ifs <;> omega
+  · rw [hg]; push_cast; ring
+
+/-- **Defect (finding C16-F1), proved on the model of the code as it is.**  A restriction
+with an explicit positive offset places the range to the LEFT of the domain:
+`uniform_discr(0, 1, 4)` resized to 2 cells with `offset = 1` gets its first grid point at
+`-1/8`, whereas the block the operator copies (cells 1, 2) starts at grid point `3/8`. -/
+theorem C16.range_grid_shrink_offset_fails :
+    let a : Axis Rat := ⟨0, 1, 4, false, false⟩
+    (resizeAxis a 2 (some 1) false false).gridMin = -1 / 8 ∧
+      a.gridMin + 1 * a.cell = 3 / 8 := by
+  norm_num [resizeAxis, Axis.gridMin, Axis.gridMax, Axis.cell, numLR]
+
+end operator
+
+section ordered
+variable {F : Type} [Field F] [LinearOrder F] [IsStrictOrderedRing F]
+
+/-- **`ResizingOperator`: the range covers the enlarged physical domain.**  For an extension
+with `offset = None` or `0 ≤ offset ≤ n_new - n` (range with the default `nodes_on_bdry=False`,
+any `nodes_on_bdry` of the domain) the range interval contains the domain interval. -/
+theorem C16.range_covers_domain (a : Axis F) (nNew : Nat) (off : Option Int)
+    (hn : 2 ≤ a.n) (hN : 2 ≤ nNew) (hgrow : a.n ≤ nNew) (hpos : a.lo < a.hi)
+    (hoff : ∀ o, off = some o → 0 ≤ o ∧ o ≤ (nNew : Int) - a.n) :
+    (resizeAxis a nNew off false false).lo ≤ a.lo ∧ a.hi ≤ (resizeAxis a nNew off false false).hi := by
+  have hc := cell_pos a hn hpos
+  have hL : (0 : Int) ≤ (numLR a.n nNew off).1 := by
+    simp only [numLR]; split_ifs
+    · simp
+    · cases off with
+      | none => simp only; omega
+      | some o => exact (hoff o rfl).1
+  have hR : (0 : Int) ≤ (numLR a.n nNew off).2 := by
+    simp only [numLR]; split_ifs
+    · simp
+    · cases off with
+      | none => simp only; omega
+      | some o => have := (hoff o rfl).2; simp only; omega
+  have hL' : (0 : F) ≤ (((numLR a.n nNew off).1 : Int) : F) := by exact_mod_cast hL
+  have hR' : (0 : F) ≤ (((numLR a.n nNew off).2 : Int) : F) := by exact_mod_cast hR
+  have m1 := mul_nonneg hL' hc.le
+  have m2 := mul_nonneg hR' hc.le
+  constructor
+  · simp only [resizeAxis, Bool.false_eq_true, ↓reduceIte, Axis.gridMin]
+    split_ifs <;> push_cast <;> linarith
+  · simp only [resizeAxis, Bool.false_eq_true, ↓reduceIte, Axis.gridMax]
+    split_ifs <;> push_cast <;> linarith
+end ordered
+
+section weighted
+variable {K : Type} [CommRing K] [DecidableEq K]
+
+/-- **Adjoint identity in the weighted inner products** (`_partial`: uniformly weighted spaces;
+see `C16.weighted_adjoint_bdry_fails`).  Domain and range carry the SAME constant cell-volume
+weight `w` (cell sides are unchanged, `C16.range_cell_unchanged`), so the unscaled transpose
+returned by `ResizingOperator.adjoint` satisfies `⟨R x, y⟩_w = ⟨x, Rᵀ y⟩_w`.
+FULL STATEMENT (fails in the code): the same with the boundary-cell fractions that
+`DiscretizedSpace._inner` applies when `nodes_on_bdry=True`. -/
+theorem C16.weighted_adjoint_partial (mode : Mode) (n m off : Nat) (x y : Nat → K) (w : K)
+    (h : Admissible mode n m off) :
+    ∃ r rt, resize1d mode .forward n m off 0 x = .ok r ∧
+      resize1d mode .adjoint m n off 0 y = .ok rt ∧
+      ∑ i ∈ range m, w * (y i * r i) = ∑ j ∈ range n, w * (x j * rt j) := by
+  obtain ⟨r, rt, h1, h2, h3⟩ := C16.adjoint_transpose mode n m off x y h
+  exact ⟨r, rt, h1, h2, by rw [← mul_sum, ← mul_sum, h3]⟩
+
+end weighted
+
+/-- **Defect (finding C16-F2), proved on the model of the code as it is.**  With half-weight
+boundary cells in the domain (`nodes_on_bdry=True`: weights `(1,2,2,1)/2·h` against `(2,2)/2·h`
+in the range) the plain transpose is not the adjoint: cropping 4 → 2 entries at offset 0 with
+`x = (1,2,3,4)`, `y = (5,6)` gives `34 ≠ 29` (times `h/2`). -/
+theorem C16.weighted_adjoint_bdry_fails :
+    ∃ r rt, resize1d .constant .forward 4 2 0 (0 : Int) (fun i => [1, 2, 3, 4].getD i 0) = .ok r ∧
+      resize1d .constant .adjoint 2 4 0 (0 : Int) (fun i => [5, 6].getD i 0) = .ok rt ∧
+      ∑ i ∈ range 2, ([2, 2].getD i 0) * ([5, 6].getD i 0 * r i) ≠
+        ∑ j ∈ range 4, ([1, 2, 2, 1].getD j 0) * ([1, 2, 3, 4].getD j 0 * rt j) :=
+  ⟨_, _, rfl, rfl, by decide⟩
+
+/-! ### Non-vacuity: the hypotheses are satisfiable and the model computes the documented examples -/
+
+example : Admissible .symmetric 3 7 2 := by simp [Admissible, PadOK]
+example : Admissible .periodic 3 9 3 := by simp [Admissible, PadOK]
+example : ¬ Admissible .symmetric 3 7 3 := by simp [Admissible, PadOK]
+example : AdmissibleND .order1 [3, 4] [5, 2] [1, 1] := by simp [AdmissibleND, Admissible, PadOK]
+
+/-- docstring of `resize_array`: symmetric, periodic, order0, order1, constant -/
+example : ∃ r, resize1d .symmetric .forward 3 7 2 (0 : Int) (fun i => [1, 2, 3].getD i 0) = .ok r ∧
+    (List.range 7).map r = [3, 2, 1, 2, 3, 2, 1] := ⟨_, rfl, by decide⟩
+example : ∃ r, resize1d .periodic .forward 3 7 2 (0 : Int) (fun i => [1, 2, 3].getD i 0) = .ok r ∧
+    (List.range 7).map r = [2, 3, 1, 2, 3, 1, 2] := ⟨_, rfl, by decide⟩
+example : ∃ r, resize1d .order0 .forward 3 7 2 (0 : Int) (fun i => [1, 2, 3].getD i 0) = .ok r ∧
+    (List.range 7).map r = [1, 1, 1, 2, 3, 3, 3] := ⟨_, rfl, by decide⟩
+example : ∃ r, resize1d .order1 .forward 3 7 2 (0 : Int) (fun i => [1, 2, 3].getD i 0) = .ok r ∧
+    (List.range 7).map r = [-1, 0, 1, 2, 3, 4, 5] := ⟨_, rfl, by decide⟩
+example : ∃ r, resize1d .constant .forward 3 7 2 (-1 : Int) (fun i => [1, 2, 3].getD i 0) = .ok r ∧
+    (List.range 7).map r = [-1, -1, 1, 2, 3, -1, -1] := ⟨_, rfl, by decide⟩
+/-- adjoint direction (accumulation of the outer parts; first moments for order1) -/
+example : ∃ r, resize1d .order1 .adjoint 7 3 2 (0 : Int) (fun i => (i : Int) + 1) = .ok r ∧
+    (List.range 3).map r = [10, -20, 38] := ⟨_, rfl, by decide⟩
+/-- the guards are live: one entry too much is refused -/
+example : resize1d .symmetric .forward 3 7 3 (0 : Int) (fun _ => 1) = .error .symmetricTooLong := rfl
+example : resize1d .periodic .forward 3 8 4 (0 : Int) (fun _ => 1) = .error .periodicTooLong := rfl
+/-- Python slice semantics matter: without the source's `-1 ↦ None` fix-up the reversed inner
+slice of the symmetric mode would be empty instead of reaching index 0. -/
+example : (pySlice ⟨some 1, some (-1), true⟩ 5).count = 0 ∧
+    (pySlice ⟨some 1, noneIfMinusOne (-1), true⟩ 5).count = 2 := by decide
